@@ -75,7 +75,22 @@ fn filter_by_id(report: &Report, allow_list: &[String]) -> bool {
     !allow_list.contains(&report.id())
 }
 
+/// Parsing and analysis are recursive in the nesting depth of the input, so
+/// they are run on a thread with a large stack. (The memory is only committed
+/// when it is used.)
+const STACK_SIZE: usize = 1024 * 1024 * 1024;
+
 fn main() -> ExitCode {
+    match std::thread::Builder::new().stack_size(STACK_SIZE).spawn(run) {
+        Ok(handle) => match handle.join() {
+            Ok(exit_code) => exit_code,
+            Err(panic) => std::panic::resume_unwind(panic),
+        },
+        Err(_) => run(),
+    }
+}
+
+fn run() -> ExitCode {
     // Initialize logger and options.
     pretty_env_logger::init();
     let options = Cli::parse();
